@@ -500,14 +500,25 @@ func (a *agentStub) send(p *agentProc) {
 		return
 	}
 	c.res.stat("sync_files", 1)
-	failAt := -1
-	a.mu.Lock()
-	if a.failNext["sync"] > 0 {
-		a.failNext["sync"]--
-		failAt = 1
-	}
-	a.mu.Unlock()
+	// an armed transfer failure strikes the next DATA file (on a .meta file, one chunk, it would be used up
+	// without any effect): half of the time before anything is copied, otherwise after the first chunk
 	dstNode := dst.node
+	failAt := -1
+	if !strings.HasSuffix(p.Src, ".meta") {
+		a.mu.Lock()
+		if a.failNext["sync"] > 0 {
+			a.failNext["sync"]--
+			failAt = int(c.w.Rand(fmt.Sprintf("syncfail:%s:%d", a.rn.name, c.w.Counter("syncfail:"+a.rn.name))) % 2)
+			c.res.stat("fault_agent_sync_fired", 1)
+		}
+		a.mu.Unlock()
+	}
+	if failAt == 0 {
+		c.res.stat("sync_file_failed", 1)
+		dst.agent.finish(recv, 1)
+		a.finish(p, 1)
+		return
+	}
 	err := sparseSync(filepath.Join(a.rn.dir, p.Src), filepath.Join(dst.dir, recv.Dest), func(chunk int) error {
 		simrt.Sleep(200 * time.Microsecond)
 		if dstNode.Dead() {
